@@ -53,6 +53,7 @@ type env struct {
 	node *netceptor.Netceptor // a real node object: owner of the named TLS profiles
 	// files for Prepare*Config
 	rootsFile, clientCAsFile, srvCert, srvKey string
+	refusedOnce                               map[string]bool
 }
 
 // ---------- generators ----------
@@ -387,6 +388,18 @@ func configLegal(pins [][]byte) bool { // what decodeFingerprints admits
 	return true
 }
 
+func (e *env) configRefused(what string, fingerprints []string, err error) {
+	if e.refusedOnce == nil {
+		e.refusedOnce = map[string]bool{}
+	}
+	if e.refusedOnce[what] {
+		return
+	}
+	e.refusedOnce[what] = true
+	e.im.Violate(fmt.Sprintf("%s refuses a list of well-formed sha256/sha512 fingerprints (%v): every connection through this profile is refused although all conditions can hold", what, err),
+		"config-refuses-legal-fingerprints:"+what, fingerprints)
+}
+
 // client profile through the real configuration path where the pin list can be configured
 func (e *env) clientProfile(name string, skip bool, pins [][]byte, cert *tls.Certificate) {
 	tc := netceptor.TLSClientConfig{Name: name, RootCAs: e.rootsFile, InsecureSkipVerify: skip}
@@ -395,6 +408,13 @@ func (e *env) clientProfile(name string, skip bool, pins [][]byte, cert *tls.Cer
 		tc.PinnedServerCert = hexPins(pins)
 	}
 	cfg, decoded, err := tc.PrepareTLSClientConfig(e.node)
+	if err != nil && viaConfig {
+		// legal sha256/sha512 fingerprints (hex, optionally ':'-separated) refused by the configuration:
+		// no connection can be established with this profile although every condition may hold
+		e.configRefused("tls-client", tc.PinnedServerCert, err)
+		tc.PinnedServerCert, viaConfig = nil, false
+		cfg, decoded, err = tc.PrepareTLSClientConfig(e.node)
+	}
 	Must(err)
 	if !viaConfig {
 		decoded = pins
@@ -510,6 +530,11 @@ func (e *env) serverConfig(n *netceptor.Netceptor, sp sprofile, cert, key string
 		sc.PinnedClientCert = hexPins(sp.Pins)
 	}
 	cfg, err := sc.PrepareTLSServerConfig(n)
+	if err != nil && viaConfig {
+		e.configRefused("tls-server", sc.PinnedClientCert, err)
+		sc.PinnedClientCert, viaConfig = nil, false
+		cfg, err = sc.PrepareTLSServerConfig(n)
+	}
 	Must(err)
 	if !viaConfig && cfg.ClientAuth != tls.NoClientCert {
 		cfg.VerifyPeerCertificate = netceptor.ReceptorVerifyFunc(cfg, sp.Pins, "", netceptor.ExpectedHostnameTypeDNS, netceptor.VerifyClient, e.lg)
@@ -577,8 +602,10 @@ func (e *env) serverTier(cases []*certCase, runsPer int) {
 				configured := srv.VerifyPeerCertificate
 				nameCheck := netceptor.ReceptorVerifyFunc(srv, [][]byte{}, exp, netceptor.ExpectedHostnameTypeReceptor, netceptor.VerifyClient, e.lg)
 				srv.VerifyPeerCertificate = func(raw [][]byte, chains [][]*x509.Certificate) error {
-					if err := configured(raw, chains); err != nil {
-						return err
+					if configured != nil {
+						if err := configured(raw, chains); err != nil {
+							return err
+						}
 					}
 					return nameCheck(raw, chains)
 				}
